@@ -1,4 +1,5 @@
 """Shared driver for the properties decided on LP executions (C01-C05, C11)."""
+import os
 import random
 
 from .. import engine as en
@@ -124,9 +125,20 @@ def lp_case(cs, ctx, profile, probe_rate=0.0, probe_cap=64, _confirm=False):
     verbose_first = (not _confirm) and rng.random() < 0.04
     if verbose_first:
         ctx.cnt('first_solve_with_msg_true_then_resolve')
+    skw = {'msg': True} if verbose_first else {}
+    cwd = None
+    r_kw = rng.random()
+    if (not _confirm) and r_kw < 0.03:
+        skw['threads'] = 2                       # documented keyword of solve(); must not change any answer
+        ctx.cnt('solves_with_threads_2')
+    elif (not _confirm) and r_kw < 0.06:
+        skw['write'] = True                      # documented keyword: model.lp is written to the working directory
+        cwd = os.path.join(ctx.workdir, 'lpwrite')
+        os.makedirs(cwd, exist_ok=True)
+        ctx.cnt('solves_with_write_true')
     ex = en.run_lp(spec, opts, ctx.workdir, rng, inject=profile.get('inject', True), decoy_argv=decoy_argv,
                    cbc_options=['preprocess off'] if _confirm else None,
-                   solve_kwargs={'msg': True} if verbose_first else None, stale_text=stale_text)
+                   solve_kwargs=skw or None, cwd=cwd, stale_text=stale_text)
     do_probe = ref['enumerable'] and rng.random() < probe_rate
     cnt = {}
     findings, facts = en.judge_lp(ex, ref, probe_cap=probe_cap if do_probe else 0,
